@@ -11,6 +11,7 @@ from ..source import AnalysisError
 
 PROTO = 'kmip/services/kmip_protocol.py'
 CONFIG = 'kmip/services/server/config.py'
+CONFIG_HELPER = 'kmip/core/config_helper.py'
 EXPLANATION = (
     "Taint analysis of every logging call of level INFO or higher and of every KMIP error message. In engine.py the abstract interpreter "
     "supplies typed sources (a whole managed object - whose repr/str print the value in hex -, an object's .value, crypto-engine results, secret "
@@ -127,6 +128,8 @@ class Taint:
                 return []
             if any(fn.endswith(sfx) for sfx in SOURCE_CALL_SUFFIX):
                 return ['result of %s()' % fn]
+            if getattr(self, 'config_values_secret', False) and isinstance(e.func, ast.Attribute) and e.func.attr in ('get', 'getint', 'getboolean', 'getfloat', 'items') and 'conf' in U(e.func.value).lower():
+                return ['value of a configuration file option read by the generic getter that also reads the password option (%s)' % U(e.func)]
             out = []
             if isinstance(e.func, ast.Attribute):
                 out += self.expr(e.func.value, node, depth)      # "fmt".format(x), x.decode(), stream.read()
@@ -314,7 +317,12 @@ def run(ctx):
             if not calls and not rs:
                 continue
             sp = SECRET_PARAMS if rel == CRYPTO else ({'password', 'data'} if rel in (PROTO, SESSION) else {'password'})
+            if rel == CONFIG_HELPER:
+                # the generic option getter of the client also resolves the `password` option: the value it was handed and the value it reads
+                # from the configuration file are secrets as far as this function can know
+                sp = sp | {'direct_value'}
             ta = Taint(fn, [p for p in params(fn) if p in sp])
+            ta.config_values_secret = rel == CONFIG_HELPER
             for c in calls:
                 level = is_logger_call(c)
                 if level == 'debug':
@@ -393,6 +401,19 @@ def run(ctx):
     nonev = [n for n in walk_local(setter) if isinstance(n, ast.Assign) and isinstance(n.targets[0], ast.Subscript) and U(n.value) == 'logging.INFO']
     ctx.check(bool(nonev), 'C20.R3', 'KmipServerConfig._set_logging_level|none-means-info', '%s:%s' % (CONFIG, setter.lineno), 'unset level falls back to INFO', 'an unset logging level no longer falls back to INFO')
     check_codec_exception_texts(ctx)
+    # ---------------- R6 no exception is raised while statement parameters are bound
+    ctx.rule('C20.R6', 'the column type converters of the object store (kmip/pie/sqltypes.py: process_bind_param / process_result_value) raise nothing: an exception raised while the parameters of a statement are bound is wrapped by SQLAlchemy into a StatementError whose text lists the raw parameters of that statement - for the managed_objects / keys INSERT the key bytes - and the engine logs the exception of a failed item at ERROR')
+    sqlt = 'kmip/pie/sqltypes.py'
+    st_ = src.tree(sqlt)
+    n_conv = 0
+    for cl_ in [x for x in st_.body if isinstance(x, ast.ClassDef)]:
+        for mth in [f for f in cl_.body if isinstance(f, ast.FunctionDef) and f.name in ('process_bind_param', 'process_result_value', 'process_literal_param')]:
+            n_conv += 1
+            fm = get_method(cl_, mth.name)
+            rz_ = [x for x in walk_local(fm) if isinstance(x, ast.Raise)]
+            ctx.check(not rz_, 'C20.R6', '%s.%s|raises-at-bind-time' % (cl_.name, mth.name), '%s:%s %s.%s' % (sqlt, mth.lineno, cl_.name, mth.name), 'the converter raises nothing of its own',
+                      'the converter can raise (line %s): SQLAlchemy reports the failure as a StatementError that prints the parameters of the statement being bound, key bytes included, and KmipEngine._process_batch logs it with logger.exception' % [x.lineno for x in rz_])
+    ctx.count('column_converters', n_conv, 4)
     ctx.not_decided += ['texts of third-party exceptions passed to logger.exception (checked once for SQLAlchemy: binary parameters are rendered as <memory at ...>)',
                         'log records emitted by third-party libraries themselves']
     ctx.assumptions += ['repr/str of pie managed objects and BytearrayStream print their content (so whole objects are sources)',
